@@ -5,6 +5,8 @@ from vlib.cxx2c import Lowerer, Profile, Unsupported, strip_type, strip_amp, fin
 TYPES = {
     'QByteArray': 'BA', 'QString': 'QS', 'std::optional<QByteArray>': 'OptBA',
     'QMap<char,QByteArray>': 'GS2Map', 'QMap<QByteArray,QByteArray>': 'DMap', 'QList<QByteArray>': 'BAList',
+    'QMap<QByteArray,QByteArray>::const_iterator': 'DMapIt', 'QMap<QByteArray,QByteArray>::iterator': 'DMapIt',
+    'QMap<char,QByteArray>::const_iterator': 'GS2It', 'QMap<char,QByteArray>::iterator': 'GS2It',
     'QCryptographicHash::Algorithm': 'int',
     'QXmpp::Private::SaslScramMechanism': 'SaslScramMechanism', 'SaslScramMechanism': 'SaslScramMechanism',
     'QXmpp::Private::SaslHtMechanism': 'SaslHtMechanism', 'SaslHtMechanism': 'SaslHtMechanism', 'HtMechanism': 'SaslHtMechanism',
@@ -18,7 +20,7 @@ TYPES = {
     'QMessageAuthenticationCode': 'QMac',
     'QChar': 'quint16', 'QObject': 'QObject', 'QXmppLoggable': 'QXmppLoggable',
 }
-CLASS_TYPES = {'BA', 'QS', 'OptBA', 'GS2Map', 'DMap', 'BAList', 'SaslScramMechanism', 'SaslHtMechanism', 'HtToken', 'OptHtToken', 'QXmppSaslClient',
+CLASS_TYPES = {'BA', 'QS', 'OptBA', 'GS2Map', 'DMap', 'BAList', 'DMapIt', 'GS2It', 'SaslScramMechanism', 'SaslHtMechanism', 'HtToken', 'OptHtToken', 'QXmppSaslClient',
                'QXmppSaslClientScram', 'QXmppSaslClientPlain', 'QXmppSaslClientHt', 'QXmppSaslClientDigestMd5', 'QMac'}
 
 
@@ -274,8 +276,37 @@ def defaulted_eq(fields):
     return rule
 
 
+def it_deref(fn):
+    """*it / it.value() / it.key() / it->: a reference to the entry's value (key); the model function carries the obligation that the
+    iterator is not past-the-end"""
+    def rule(lw, node, args):
+        return '(*%s(%s))' % (fn, args[0])
+    return rule
+
+
+def it_arrow(fn):
+    def rule(lw, node, args):
+        return '%s(%s)' % (fn, args[0])
+    return rule
+
+
+def gs2_index(lw, node, args):
+    """QMap<char,QByteArray>::operator[](key) const: the value or a default-constructed one, like value(key); the inserting
+    non-const overload is not modelled"""
+    if not re.search(r'\)\s*const\s*$', lw.callee_ref(node).get('type', {}).get('qualType', '')):
+        raise Unsupported('non-const QMap<char,QByteArray>::operator[]')
+    t = lw.newtmp()
+    lw.pre.append('BA %s; GS2Map_value(&%s, %s, %s);' % (t, t, args[0], args[1]))
+    return t
+
+
 def map_index(lw, node, args):
-    """QMap::operator[](key) with a literal key: a reference to the (default-inserted) value of that directive"""
+    """QMap::operator[](key).  const overload: the value or a default-constructed one, like value(key).  Non-const overload with a
+    literal key: a reference to the (default-inserted) value of that directive"""
+    if re.search(r'\)\s*const\s*$', lw.callee_ref(node).get('type', {}).get('qualType', '')):
+        t = lw.newtmp()
+        lw.pre.append('BA %s; DMap_value(&%s, %s, %s);' % (t, t, args[0], args[1]))
+        return t
     k = lw.skip(node['inner'][2])
     while k.get('kind') == 'ParenExpr':
         k = lw.skip(k['inner'][0])
@@ -381,12 +412,27 @@ def profile():
         # GS2 attribute map (parseGS2 is a repository function used through its contract)
         'fn:parseGS2/1': ('calleeret', 'parseGS2', 'GS2Map'),
         'GS2Map::value/1': ('fnret', 'GS2Map_value', 'BA'),
+        'GS2Map::value/2': ('fnret', 'GS2Map_value2', 'BA'),
+        'GS2Map::contains/1': ('fn', 'GS2Map_contains'),
+        'GS2Map::count/1': ('fn', 'GS2Map_count'),
+        'op[]:GS2Map:char': gs2_index,
+        'GS2Map::find/1': ('fnret', 'GS2Map_find', 'GS2It'), 'GS2Map::constFind/1': ('fnret', 'GS2Map_find', 'GS2It'),
+        'GS2Map::end/0': ('fnret', 'GS2Map_end', 'GS2It'), 'GS2Map::constEnd/0': ('fnret', 'GS2Map_end', 'GS2It'), 'GS2Map::cend/0': ('fnret', 'GS2Map_end', 'GS2It'),
+        'op==:GS2It:GS2It': ('fn', 'GS2It_eq'), 'op!=:GS2It:GS2It': ('fn', 'GS2It_ne'),
+        'op*:GS2It': it_deref('GS2It_value'), 'GS2It::value/0': it_deref('GS2It_value'), 'op->:GS2It': it_arrow('GS2It_value'),
+        'GS2It::key/0': ('fn', 'GS2It_key'),
         # DIGEST-MD5: Qt containers and the message grammar (QXmppSaslDigestMd5::parseMessage / serializeMessage through contracts)
         'ctor:DMap()': ('fn', 'DMap_ctor'),
         'fn:parseMessage/1': ('calleeret', 'QXmppSaslDigestMd5_parseMessage', 'DMap'),
         'fn:serializeMessage/1': ('calleeret', 'QXmppSaslDigestMd5_serializeMessage', 'BA'),
         'fn:calculateDigest/6': ('calleeret', 'calculateDigest', 'BA'),
         'DMap::contains/1': ('fn', 'DMap_contains'),
+        'DMap::count/1': ('fn', 'DMap_count'),
+        'DMap::find/1': ('fnret', 'DMap_find', 'DMapIt'), 'DMap::constFind/1': ('fnret', 'DMap_find', 'DMapIt'),
+        'DMap::end/0': ('fnret', 'DMap_end', 'DMapIt'), 'DMap::constEnd/0': ('fnret', 'DMap_end', 'DMapIt'), 'DMap::cend/0': ('fnret', 'DMap_end', 'DMapIt'),
+        'op==:DMapIt:DMapIt': ('fn', 'DMapIt_eq'), 'op!=:DMapIt:DMapIt': ('fn', 'DMapIt_ne'),
+        'op*:DMapIt': it_deref('DMapIt_value'), 'DMapIt::value/0': it_deref('DMapIt_value'), 'op->:DMapIt': it_arrow('DMapIt_value'),
+        'DMapIt::key/0': it_deref('DMapIt_key'),
         'DMap::value/1': ('fnret', 'DMap_value', 'BA'),
         'DMap::value/2': ('fnret', 'DMap_value2', 'BA'),
         'op[]:DMap:BA': map_index,
